@@ -162,6 +162,11 @@ def make_variants(case, files, seed, tier):
         for n in (2, 8):
             for i in range(1 if tier == "quick" else 3):
                 var("parallel-%d-%d" % (n, i), parallel=n, pool_seed=rng.randrange(1 << 30))
+        if tier == "thorough" or case["idx"] % 4 == 0:
+            # the real worker pool (forked processes, real scheduling): ties SimPool to the mechanism it models
+            var("parallel-real-2", parallel=2, pool_real=True)
+            if tier == "thorough":
+                var("parallel-real-8", parallel=8, pool_real=True)
     else:
         var("parallel-2", parallel=2, pool_seed=1)
     for h in ("empty", "stale", "same", "file"):
@@ -341,6 +346,8 @@ def evaluate(case, seed, variants, workdir, want_ref_copy=True):
             st["order_permuted"] = st.get("order_permuted", 0) + 1
         if pr.get("find_all_files_ordered_by_code"):
             st["order_fixed_by_code"] = st.get("order_fixed_by_code", 0) + 1
+        if dims.get("pool_real"):
+            st["real_pool_runs"] = st.get("real_pool_runs", 0) + 1
         if res.get("pool") and res["pool"]["tasks"]:
             st["pool_runs"] = st.get("pool_runs", 0) + 1
             st["pool_switches"] = st.get("pool_switches", 0) + res["pool"]["switches"]
@@ -499,6 +506,15 @@ def confirm(case, seed, variant, sig, workdir):
 
 
 def replay_case(rep, workdir):
+    if rep.get("workdir"):   # a path-dependent (address-order) finding: replay at the recorded absolute path
+        try:
+            return evaluate(rep["case"], rep["seed_used"], [rep["variant"]], rep["workdir"])
+        finally:
+            O.wipe(rep["workdir"])
+            try:
+                os.rmdir(os.path.dirname(rep["workdir"]))
+            except OSError:
+                pass
     return evaluate(rep["case"], rep["seed_used"], [rep["variant"]], workdir)
 
 
@@ -587,15 +603,35 @@ def main():
             if info is None:
                 mcase, mvar, msig = case, var, sig
                 info = confirm(mcase, args.seed, mvar, msig, wd)
+            path_dependent = None
             if info is None:
-                rep.harness_error("finding %s in world %d did not reproduce twice from cold" % (sig, i))
-                continue
-            if info.get("address_order_suspect"):
+                # Output that depends on object addresses reacts to the absolute sandbox path (it reaches
+                # the heap layout through every path string).  Such a dependence is a genuine C12 defect,
+                # so before giving up re-confirm at exactly the path where it was found; the replay file
+                # then pins that path.
+                orig = os.path.join(batch, "w%d" % i)
+                hits = 0
+                for _ in range(2):
+                    r2 = evaluate(case, args.seed, [var], orig)
+                    hit = [f for f in r2["findings"] if f[0] == sig]
+                    if hit:
+                        hits += 1
+                        info = {"what": hit[0][1], "detail": hit[0][3], "address_order_suspect": True,
+                                "note": "reproduces only at the original sandbox path"}
+                O.wipe(orig)
+                if hits < 2:
+                    rep.harness_error("finding %s in world %d did not reproduce twice from cold" % (sig, i))
+                    continue
+                path_dependent = orig
+            if info.get("address_order_suspect") and not msig.startswith("address-order|"):
                 msig = "address-order|" + msig.split("|", 1)[1]
             done_sigs.add(msig)
             files, argv, out_rel, graph_rel = build_files(mcase, args.seed)
-            rep.violation(msig, info["what"], {"case": mcase, "variant": mvar, "seed_used": args.seed,
-                                               "files": files, "argv": argv, "observed": info, "found_in_world": i})
+            payload = {"case": mcase, "variant": mvar, "seed_used": args.seed,
+                       "files": files, "argv": argv, "observed": info, "found_in_world": i}
+            if path_dependent:
+                payload["workdir"] = path_dependent
+            rep.violation(msig, info["what"], payload)
             O.wipe(wd)
         rep.cov["worlds"] = worlds
         rep.cov["seeds_per_hour"] = int(worlds / max(1e-9, time.monotonic() - rep.t0) * 3600)
